@@ -203,40 +203,59 @@ def _res(r):
     return {"objective": r.objective, "iterations": r.iterations, "evaluations": r.evaluations, "status": r.status.name}
 
 
-def run_ap(nodes, nb):
+def _bind(nodes, nb, pres):
+    from harness.props.C15_hard import IDENT, Bound
+
+    return Bound(nodes, nb, tuple(pres) if pres else IDENT)
+
+
+def _alias(B, o):
+    o["inputs_unchanged"] = B.unchanged()
+    return o
+
+
+def run_ap(nodes, nb, pres=None):
     from solvor.articulation import articulation_points
 
-    r = articulation_points(list(nodes), lambda v: list(nb[v]))
-    return {**_res(r), "solution": sorted(r.solution), "is_set": isinstance(r.solution, (set, frozenset))}
+    B = _bind(nodes, nb, pres)
+    r = articulation_points(B.nodes(), B.nbfn)
+    return _alias(B, {**_res(r), "solution": sorted(B.ids(r.solution)), "is_set": isinstance(r.solution, (set, frozenset))})
 
 
-def run_br(nodes, nb):
+def run_br(nodes, nb, pres=None):
     from solvor.articulation import bridges
 
-    r = bridges(list(nodes), lambda v: list(nb[v]))
-    return {**_res(r), "solution": [tuple(e) for e in r.solution]}
+    B = _bind(nodes, nb, pres)
+    r = bridges(B.nodes(), B.nbfn)
+    return _alias(B, {**_res(r), "solution": [tuple(B.ids(e)) for e in r.solution]})
 
 
-def run_kc(nodes, nb):
+def run_kc(nodes, nb, pres=None, extra_k=()):
     from solvor.kcore import kcore, kcore_decomposition
 
-    r = kcore_decomposition(list(nodes), lambda v: list(nb[v]))
-    mx = max(r.solution.values()) if r.solution else 0
+    B = _bind(nodes, nb, pres)
+    r = kcore_decomposition(B.nodes(), B.nbfn)
+    sol = {B.back[k]: v for k, v in r.solution.items()}
+    mx = max(sol.values()) if sol else 0
     ks = {}
-    for k in range(0, mx + 2):
-        rk = kcore(list(nodes), lambda v: list(nb[v]), k)
-        ks[k] = {**_res(rk), "solution": sorted(rk.solution)}
-    return {**_res(r), "solution": dict(r.solution), "kcore": ks}
+    for k in list(range(-1, mx + 2)) + list(extra_k):
+        rk = kcore(B.nodes(), B.nbfn, k)
+        ks[k] = {**_res(rk), "solution": sorted(B.ids(rk.solution))}
+    return _alias(B, {**_res(r), "solution": sol, "kcore": ks})
 
 
-def run_pr(nodes, nb, dpq, tol, max_iter):
+def run_pr(nodes, nb, dpq, tol, max_iter, pres=None, defaults=False):
     from solvor.pagerank import pagerank
 
-    r = pagerank(list(nodes), lambda v: list(nb[v]), damping=dpq[0] / dpq[1], max_iter=max_iter, tol=tol)
-    return {**_res(r), "solution": dict(r.solution)}
+    B = _bind(nodes, nb, pres)
+    if defaults:
+        r = pagerank(B.nodes(), B.nbfn)
+    else:
+        r = pagerank(B.nodes(), B.nbfn, damping=dpq[0] / dpq[1], max_iter=max_iter, tol=tol)
+    return _alias(B, {**_res(r), "solution": {B.back[k]: v for k, v in r.solution.items()}})
 
 
-def run_lv(nodes, nb, resolution):
+def run_lv(nodes, nb, resolution, pres=None, defaults=False, trace=True):
     """Runs louvain and records, without touching /repo, the move made at every node visit: a line tracer on the
     louvain frame reads (iterations, v, current_comm, best_comm) when the statement `node_to_comm[v] = best_comm`
     is about to run.  If that statement no longer exists the trace is empty and only the result is judged."""
@@ -262,14 +281,24 @@ def run_lv(nodes, nb, resolution):
     def glob(frame, event, arg):
         return local if frame.f_code is code else None
 
-    if len(tl) == 1:
+    B = _bind(nodes, nb, pres)
+    if len(tl) == 1 and trace:
         sys.settrace(glob)
     try:
-        r = fn(list(nodes), lambda v: list(nb[v]), resolution=resolution)
+        r = fn(B.nodes(), B.nbfn) if defaults else fn(B.nodes(), B.nbfn, resolution=resolution)
     finally:
         sys.settrace(None)
-    return {**_res(r), "solution": [sorted(c) for c in r.solution], "moves": moves,
-            "sets": all(isinstance(c, (set, frozenset)) for c in r.solution)}
+    moves = [(m[0], B.back.get(m[1], m[1]) if _hashable(m[1]) else m[1], m[2], m[3]) for m in moves]
+    return _alias(B, {**_res(r), "solution": [sorted(B.ids(c)) for c in r.solution], "moves": moves,
+                      "sets": all(isinstance(c, (set, frozenset)) for c in r.solution)})
+
+
+def _hashable(x):
+    try:
+        hash(x)
+        return True
+    except TypeError:
+        return False
 
 
 # ---------------------------------------------------------------- judging (returns None or a description)
@@ -341,7 +370,7 @@ def judge_lv(nodes, nb, res, o):
         exp = Fraction(0)
     else:
         exp = ref_modularity(nodes, nb, res, comms)
-    if abs(Fraction(o["objective"]) - exp) > EPS:
+    if abs(Fraction(o["objective"]) - exp) > EPS * max(1, abs(exp)):  # 1e-9 absolute, relative beyond magnitude 1 (resolution up to 2^60)
         return f"louvain reports modularity {o['objective']!r}, the returned partition has {float(exp)!r}"
     if o["status"] != "OPTIMAL":
         return f"louvain status {o['status']}"
@@ -388,11 +417,16 @@ def lv_passes(nodes, o):
 
 # ---------------------------------------------------------------- the check
 def one_case(ctx, case, acc, judge_only=False):
-    """Run all five functions on one case, judge with the Python references, collect Coq cases in acc.
-    Returns the list of (what, replay) violations found."""
-    nodes, nb, dpq, tol, max_iter, res = case
+    """Run all five functions on one case (presented under its label map / container shapes), judge with the Python
+    references on nat ids, collect Coq cases in acc.  Returns the list of (what, replay) violations found."""
+    from harness.props.C15_hard import IDENT, KF_NONE, KF_UNORD, ORDERABLE, gate
+
+    nodes, nb, dpq, tol, max_iter, res = case[:6]
+    pres = tuple(case[6]) if len(case) > 6 and case[6] else IDENT
+    case = (nodes, nb, dpq, tol, max_iter, res, pres)
+    orderable = pres[0] in ORDERABLE
     base = {"nodes": nodes, "nb": {str(k): v for k, v in nb.items()}, "damping": list(dpq), "tol": tol, "max_iter": max_iter,
-            "resolution": res}
+            "resolution": res, "pres": list(pres)}
     bad = []
     asym = is_asymmetric(nodes, nb)
     E = sym_edges(nodes, nb)
@@ -402,73 +436,76 @@ def one_case(ctx, case, acc, judge_only=False):
         ctx.count("edges", len(E))
         ctx.count("asymmetric", asym)
         ctx.count("components", n_components(nodes, E))
+        ctx.count("L_labels", pres[0])
+        ctx.count("I_nodes_as", pres[1])
+        ctx.count("I_neighbours_as", pres[2])
 
-    def call(kind, fn, *a):
-        r = guarded(fn, *a, timeout=5)
+    def call(kind, fn, *a, **kw):
+        r = guarded(fn, *a, timeout=5, **kw)
         if not judge_only:
             ctx.evaluations += 1
         if r[0] != "ok":
-            bad.append((f"{kind}: implementation {r[0]} {r[1:]}", {**base, "kind": kind}))
+            if kind == "lv" and not orderable and r[0] == "exc" and r[1] == "TypeError":
+                gate(ctx, KF_UNORD, f"louvain raises TypeError on hashable but unorderable labels ({pres[0]}): {r[2][:80]}", {**base, "kind": kind}, bad)
+            else:
+                bad.append((f"{kind}: implementation {r[0]} {r[1:]}", {**base, "kind": kind}))
             return None
+        if not r[1].get("inputs_unchanged", True):
+            bad.append((f"{kind}: the caller's node list / neighbour lists were modified by the call", {**base, "kind": kind}))
         return r[1]
 
-    # ---- articulation points / bridges
-    oa = call("ap", run_ap, nodes, nb)
-    ob = call("br", run_br, nodes, nb)
+    # ---- articulation points / bridges (bridges orders labels with <: only orderable label maps)
+    oa = call("ap", run_ap, nodes, nb, pres)
+    ob = call("br", run_br, nodes, nb, pres) if orderable else None
     for kind, o, judge in (("ap", oa, judge_ap), ("br", ob, judge_br)):
         if o is None:
             continue
         v = judge(nodes, nb, o)
         if v:
-            bad.append((v, {**base, "kind": kind, "impl": o}))
-    if oa is not None and ob is not None and not judge_only:
-        if all(_int(x) for x in (oa["objective"], oa["iterations"], oa["evaluations"], ob["objective"], ob["iterations"], ob["evaluations"])):
+            if kind == "ap" and (pres[0] == "none" or (pres[0] == "mixed" and 0 in nodes)):  # a node carries the label None
+                gate(ctx, KF_NONE, f"articulation_points with a node labelled None: {v}", {**base, "kind": kind, "impl": o}, bad)
+                oa = None
+            else:
+                bad.append((v, {**base, "kind": kind, "impl": o}))
+    if oa is not None and not judge_only:
+        if all(_int(x) for x in (oa["objective"], oa["iterations"], oa["evaluations"])):
             acc["ap"].append((f"({G}, ({clist(oa['solution'])}, {oa['objective']}, {oa['iterations']}, {oa['evaluations']}))", case, oa))
-            acc["br"].append((f"({G}, ({cpairs(ob['solution'])}, {ob['objective']}, {ob['iterations']}, {ob['evaluations']}))", case, ob))
-            acc["apspec"].append((f"({G}, ({clist(oa['solution'])}, {cpairs(ob['solution'])}))", case, (oa, ob)))
+            if ob is None:
+                acc["apspec1"].append((f"({G}, {clist(oa['solution'])})", case, oa))
         ctx.count("cut_vertices", len(oa["solution"]))
+    if ob is not None and not judge_only:
+        if all(_int(x) for x in (ob["objective"], ob["iterations"], ob["evaluations"])):
+            acc["br"].append((f"({G}, ({cpairs(ob['solution'])}, {ob['objective']}, {ob['iterations']}, {ob['evaluations']}))", case, ob))
+            if oa is not None:
+                acc["apspec"].append((f"({G}, ({clist(oa['solution'])}, {cpairs(ob['solution'])}))", case, (oa, ob)))
         ctx.count("bridges", len(ob["solution"]))
 
-    # ---- k-core
-    ok_ = call("kc", run_kc, nodes, nb)
+    # ---- k-core (k swept from -1 to max core + 1, plus far-away values)
+    ok_ = call("kc", run_kc, nodes, nb, pres, (-10**18, 2**60, 10**18))
     if ok_ is not None:
         v = judge_kc(nodes, nb, ok_)
         if v:
-            bad.append((v, {**base, "kind": "kc", "impl": {**ok_, "solution": {str(k): x for k, x in ok_["solution"].items()}}}))
+            bad.append((v, {**base, "kind": "kc", "impl": {**ok_, "solution": {str(k): x for k, x in ok_["solution"].items()},
+                                                             "kcore": {str(k): x for k, x in ok_["kcore"].items()}}}))
         if not judge_only:
             sol = list(ok_["solution"].items())
             if all(_int(k) and _int(x) for k, x in sol) and all(_int(ok_[f]) for f in ("objective", "iterations", "evaluations")):
-                ks = clist(sorted(ok_["kcore"].items()),
+                ks = clist(sorted((k, x) for k, x in ok_["kcore"].items() if _int(k)),
                            lambda kv: f"({kv[0]}, ({clist(kv[1]['solution'])}, {kv[1]['objective']}, {kv[1]['iterations']}, {kv[1]['evaluations']}))")
                 acc["kc"].append((f"({G}, (({cpairs(sol)}, {ok_['objective']}, {ok_['iterations']}, {ok_['evaluations']}), {ks}))", case, ok_))
             ctx.count("max_core", ok_["objective"])
 
     # ---- pagerank
-    op = call("pr", run_pr, nodes, nb, dpq, tol, max_iter)
+    op = call("pr", run_pr, nodes, nb, dpq, tol, max_iter, pres)
     if op is not None:
         v = judge_pr(nodes, nb, dpq, tol, max_iter, op)
         if v:
             bad.append((v, {**base, "kind": "pr", "impl": {**op, "solution": {str(k): x for k, x in op["solution"].items()}}}))
         elif not judge_only and nodes:
-            ctx.count("pr_status", op["status"])
-            ctx.count("pr_iterations", min(op["iterations"], 30) // 5 * 5)
-            it = op["iterations"]
-            if it > COQ_PR_MAX_IT:
-                ctx.count("pr_coq", "skipped_long_run")
-            else:
-                d = Fraction(dpq[0], dpq[1])
-                diffs = pr_exact_diffs(nodes, nb, d, it)
-                ft = Fraction(tol)
-                near = any(abs(x - ft) < Fraction(1, 10**12) + ft / 10**9 for x in diffs)
-                sc = cassq(nodes, op["solution"])
-                bound = cq(d * len(nodes) * ft + Fraction(1, 10**12)) if op["status"] == "OPTIMAL" else cq(Fraction(10))
-                st = "P_OPTIMAL" if op["status"] == "OPTIMAL" else "P_MAX_ITER"
-                mode = "false" if near else "true"
-                ctx.count("pr_coq", "threshold_too_close_iterate_only" if near else "strict")
-                acc["pr"].append((f"({G}, (({cq(d)}, {cq(ft)}, {cnat(max_iter)}), ({mode}, ({sc}, {copt(None if math.isinf(op['objective']) else Fraction(op['objective']), cq)}, {cnat(it)}, {st}), {bound})))", case, op))
+            pr_coq_case(ctx, acc, case, op)
 
     # ---- louvain
-    ol = call("lv", run_lv, nodes, nb, res)
+    ol = call("lv", run_lv, nodes, nb, res, pres)
     if ol is not None:
         v = judge_lv(nodes, nb, res, ol)
         if v:
@@ -478,17 +515,47 @@ def one_case(ctx, case, acc, judge_only=False):
             ctx.count("lv_iterations", ol["iterations"])
             passes = lv_passes(nodes, ol)
             obs = f"({clist(ol['solution'], clist)}, {cq(Fraction(ol['objective']))}, {cnat(ol['iterations'])}, {cnat(ol['evaluations'])})"
+            eps = cq(EPS * max(1, abs(Fraction(ol["objective"]))))
             if passes is None:
                 ctx.count("lv_trace", "unusable")
-                acc["lvspec"].append((f"({G}, ({cq(Fraction(res))}, {obs}))", case, ol))
+                acc["lvspec"].append((f"({G}, ({eps}, {cq(Fraction(res))}, {obs}))", case, ol))
             else:
                 ctx.count("lv_trace", "replayed")
                 ctx.traces_validated += 1
                 ctx.count("lv_moves", sum(1 for m in ol["moves"] if m[2] != m[3]))
-                acc["lv"].append((f"({G}, ({cq(Fraction(res))}, {clist(passes, clist)}, {obs}))", case, ol))
-    if not judge_only and len(nodes) >= 3 and len(E) >= 2:
-        ctx.nontriv(json.dumps([nodes, sorted(nb.items()), dpq, tol, max_iter, res]))
+                acc["lv"].append((f"({G}, ({eps}, {cq(Fraction(res))}, {clist(passes, clist)}, {obs}))", case, ol))
+    if not judge_only:
+        if len(nodes) >= 3 and len(E) >= 2:
+            ctx.nontriv(json.dumps([nodes, sorted(nb.items()), dpq, tol, max_iter, res, pres]))
+        if acc.get("_events") is not None:
+            from harness.props.C15_hard import events_of
+
+            for ev in events_of(nodes, nb, dpq, tol, max_iter, op, ol):
+                acc["_events"][ev] = acc["_events"].get(ev, 0) + 1
     return bad
+
+
+def pr_coq_case(ctx, acc, case, op):
+    nodes, nb, dpq, tol, max_iter = case[:5]
+    G = cgraph(nodes, nb)
+    ctx.count("pr_status", op["status"])
+    ctx.count("pr_iterations", min(op["iterations"], 30) // 5 * 5)
+    it = op["iterations"]
+    if it > (COQ_PR_MAX_IT if dpq[1] <= 1000 else 8):  # Q numerators grow by log2(q) bits per iteration
+        ctx.count("pr_coq", "skipped_long_run")
+        return
+    d = Fraction(dpq[0], dpq[1])
+    diffs = pr_exact_diffs(nodes, nb, d, it)
+    ft = Fraction(tol)
+    near = any(abs(x - ft) < Fraction(1, 10**12) + ft / 10**9 for x in diffs)
+    sc = cassq(nodes, op["solution"])
+    bound = cq(d * len(nodes) * ft + Fraction(1, 10**12)) if op["status"] == "OPTIMAL" else cq(Fraction(10))
+    st = "P_OPTIMAL" if op["status"] == "OPTIMAL" else "P_MAX_ITER"
+    mode = "false" if near else "true"
+    ctx.count("pr_coq", "threshold_too_close_iterate_only" if near else "strict")
+    mi = min(max_iter, 5000)  # a nat literal; the model stops at the same iteration for every fuel > it
+    obj = copt(None if math.isinf(op["objective"]) else Fraction(op["objective"]), cq)
+    acc["pr"].append((f"({G}, (({cq(d)}, {cq(ft)}, {cnat(mi)}), ({mode}, ({sc}, {obj}, {cnat(it)}, {st}), {bound})))", case, op))
 
 
 CHECKS = {
@@ -496,6 +563,7 @@ CHECKS = {
     "br": ("graph * (list (nat * nat) * nat * nat * nat)", "fun c => br_corr (fst c) (snd c)"),
     "apspec": ("graph * (list nat * list (nat * nat))",
                "fun c => ap_spec_check (fst c) (fst (snd c)) && br_spec_check (fst c) (snd (snd c))"),
+    "apspec1": ("graph * list nat", "fun c => ap_spec_check (fst c) (snd c)"),
     "kc": ("graph * ((list (nat * nat) * nat * nat * nat) * list (nat * (list nat * nat * nat * nat)))",
            "fun c => let g := fst c in let '(sol, obj, it, ev) := fst (snd c) in "
            "match kcore_decomposition pick_first g with None => false | Some r => assoc_eqb (k_solution r) sol && (k_objective r =? obj) "
@@ -503,11 +571,11 @@ CHECKS = {
            "forallb (fun kq => let '(k, (s, o, i, e)) := kq in kcore_set_check sol k s && "
            "match kcore pick_first g k with Some (s', o', i', e') => set_eqb s' s && (o' =? o) && (i' =? i) && (e' =? e) | None => false end) (snd (snd c))"),
     "pr": ("graph * ((Q * Q * nat) * (bool * (list (nat * Q) * option Q * nat * pstatus) * Q))", "pr_case"),
-    "lv": ("graph * (Q * list (list nat) * (list (list nat) * Q * nat * nat))",
-           "fun c => let g := fst c in let '(res, passes, o) := snd c in let '(cs, obj, it, ev) := o in "
-           "lv_corr (1 # 1000000000) g res passes o && lv_spec_check (1 # 1000000000) g res cs obj"),
-    "lvspec": ("graph * (Q * (list (list nat) * Q * nat * nat))",
-               "fun c => let g := fst c in let '(res, o) := snd c in let '(cs, obj, it, ev) := o in lv_spec_check (1 # 1000000000) g res cs obj"),
+    "lv": ("graph * (Q * Q * list (list nat) * (list (list nat) * Q * nat * nat))",
+           "fun c => let g := fst c in let '(eps, res, passes, o) := snd c in let '(cs, obj, it, ev) := o in "
+           "lv_corr eps g res passes o && lv_spec_check eps g res cs obj"),
+    "lvspec": ("graph * (Q * Q * (list (list nat) * Q * nat * nat))",
+               "fun c => let g := fst c in let '(eps, res, o) := snd c in let '(cs, obj, it, ev) := o in lv_spec_check eps g res cs obj"),
 }
 
 EDGE_CASES = [
@@ -524,15 +592,22 @@ EDGE_CASES = [
 
 
 def all_cases(ctx, n_random, big):
+    from harness.props.C15_hard import IDENT, gen_params_corner, gen_pres
+
     cases = []
     for o in _corpus():
         cases.append(o)
     for nodes, nb in EDGE_CASES:
-        cases.append((list(nodes), {k: list(v) for k, v in nb.items()}, (17, 20), 1e-6, 100, 1.0))
-        cases.append((list(nodes), {k: list(v) for k, v in nb.items()}, (1, 2), 1e-3, 5, 0.5))
-    for _ in range(n_random):
+        cases.append((list(nodes), {k: list(v) for k, v in nb.items()}, (17, 20), 1e-6, 100, 1.0, IDENT))
+        cases.append((list(nodes), {k: list(v) for k, v in nb.items()}, (1, 2), 1e-3, 5, 0.5, gen_pres(ctx.rng)))
+    for i in range(n_random):
         nodes, nb = gen_graph(ctx.rng, big)
-        cases.append((nodes, nb, *gen_pr_params(ctx.rng), gen_resolution(ctx.rng)))
+        if ctx.rng.random() < 0.3:
+            dpq, tol, mi, res = gen_params_corner(ctx.rng)  # classes M / O: corners of the option space
+        else:
+            dpq, tol, mi = gen_pr_params(ctx.rng)
+            res = gen_resolution(ctx.rng)
+        cases.append((nodes, nb, dpq, tol, mi, res, gen_pres(ctx.rng)))  # classes L / I: label map and container shapes
     return cases
 
 
@@ -557,14 +632,30 @@ def run(ctx: Ctx):
         "node lists without repeated nodes, integer labels (bridges orders endpoints with <)",
     ]
     big = ctx.tier == "thorough"
-    cases = all_cases(ctx, ctx.budget(320, 5000), big)
+    cases = all_cases(ctx, ctx.budget(260, 5000), big)
     acc = {k: [] for k in CHECKS}
-    for case in cases:
+    acc["_events"] = {}
+
+    def run_case(case):
         for what, rep in one_case(ctx, case, acc):
             what, rep = shrink(ctx, what, rep)
             ctx.violation(what, rep)
+
+    for case in cases:
+        run_case(case)
         if len(ctx.violations) > 20:
             break
+    from harness.props import C15_hard as H
+
+    extra = []
+    H.directed_search(ctx, acc, run_case, 1500 if ctx.tier == "quick" else 20000)
+    H.run_sweeps(ctx, acc, extra)
+    H.run_sequences(ctx, extra)
+    H.run_structured(ctx, extra)
+    for what, rep in extra[:10]:
+        if rep.get("kind") in ("pr", "lv") and "nodes" in rep and "max_iter" in rep:
+            what, rep = shrink(ctx, what, rep)
+        ctx.violation(what, rep)
     for case in cases[:3]:
         ctx.sample({"nodes": case[0], "nb": {str(k): v for k, v in case[1].items()}, "params": case[2:]}, 3)
     disagree = {}
@@ -624,14 +715,14 @@ def mutate(rng, case):
             nb[v].append(rng.choice(nodes))
         else:
             rng.shuffle(nodes)
-    return (nodes, nb, *gen_pr_params(rng), gen_resolution(rng))
+    return (nodes, nb, *gen_pr_params(rng), gen_resolution(rng), case[6] if len(case) > 6 else None)
 
 
 def shrink(ctx, what, rep):
     """Greedy: drop nodes / neighbour entries while the same function still violates its reference."""
     kind = rep.get("kind")
     nodes, nb = list(rep["nodes"]), {int(k): list(v) for k, v in rep["nb"].items()}
-    rest = (tuple(rep["damping"]), rep["tol"], rep["max_iter"], rep["resolution"])
+    rest = (tuple(rep["damping"]), rep["tol"], rep["max_iter"], rep["resolution"], tuple(rep.get("pres") or ("ident", "list", "list")))
 
     def fails(nodes, nb):
         for w, r in one_case(ctx, (nodes, nb, *rest), None, judge_only=True):
@@ -668,25 +759,35 @@ def _corpus():
         for f in sorted(d.glob("*.json")):
             o = json.loads(f.read_text())
             out.append((list(o["nodes"]), {int(k): list(v) for k, v in o["nb"].items()}, tuple(o.get("damping", (17, 20))), o.get("tol", 1e-6),
-                        o.get("max_iter", 100), o.get("resolution", 1.0)))
+                        o.get("max_iter", 100), o.get("resolution", 1.0), tuple(o["pres"]) if o.get("pres") else None))
     return out
 
 
 def replay(obj):
+    if obj.get("kind") == "structured":
+        from harness.props.C15_hard import replay_structured
+
+        return replay_structured(obj)
     if "nodes" not in obj:
         print("replay names an unchecked obligation:", obj.get("unchecked") or obj.get("what"))
         return 1
+    pres = tuple(obj["pres"]) if obj.get("pres") else None
     case = (list(obj["nodes"]), {int(k): list(v) for k, v in obj["nb"].items()}, tuple(obj.get("damping", (17, 20))), obj.get("tol", 1e-6),
-            obj.get("max_iter", 100), obj.get("resolution", 1.0))
+            obj.get("max_iter", 100), obj.get("resolution", 1.0), pres)
     ctx = Ctx.__new__(Ctx)
-    ctx.known, ctx.known_hits, ctx.evaluations = [], {}, 0
+    ctx.known, ctx.known_hits, ctx.evaluations, ctx.tier, ctx.hist = [], {}, 0, "quick", {}
+    import random
+
+    ctx.rng = random.Random(0)
     bad = one_case(ctx, case, None, judge_only=True)
-    for kind, fn, args in (("ap", run_ap, case[:2]), ("br", run_br, case[:2]), ("kc", run_kc, case[:2]), ("pr", run_pr, case[:5]),
-                           ("lv", run_lv, (case[0], case[1], case[5]))):
+    if obj.get("kind") in ("sequence", "pr_defaults", "lv_defaults"):
+        print("(found by the call-sequence / defaults family: rerun ./check C15 --seed", obj.get("seed"), "for the exact sequence)")
+    for kind, fn, args in (("ap", run_ap, (*case[:2], pres)), ("br", run_br, (*case[:2], pres)), ("kc", run_kc, (*case[:2], pres)),
+                           ("pr", run_pr, (*case[:5], pres)), ("lv", run_lv, (case[0], case[1], case[5], pres))):
         r = guarded(fn, *args)
         if r[0] == "ok" and isinstance(r[1], dict):
             r[1].pop("moves", None)
-        print(kind, "->", r)
+        print(kind, "->", str(r)[:400])
     for w, _ in bad:
         print("reference verdict:", w)
     if not bad:
